@@ -16,8 +16,10 @@
     [step dh p o] = effect of one abstract operation [o] of a run with private state [p]
     on the definition heap [dh].  The operations are the effects of pypyr's code:
 
-      InjectIn k c     Step.set_step_input_context / pypyr.steps.configvars: context.update(in)
-                       — context[k] IS the definition's object (no copy)
+      InjectIn k c     Step.set_step_input_context / pypyr.steps.configvars:
+                       context.update(copy.deepcopy(in)) — context[k] is a private deep copy of
+                       the definition's object c  (before commit d9572b0 it WAS the object:
+                       that machine is kept as [step_aliasing])
       Unset k          Step.unset_step_input_context: context.pop(k, None)
       SetFmt k t       pypyr.steps.set / contextsetf / the foreach copy: context[k] = format(t)
                        (formatting REBUILDS containers; '{k}' deep-copies context[k] with the
@@ -401,7 +403,11 @@ Definition append_to (dh : heap) (p : priv) (c : cell) (a : cell) : heap * priv 
 Definition bind_new_list (k : string) (a : cell) (p : priv) : priv :=
   let '(p1, c) := alloc (OList [a]) p in set_ctx (aset k c (ctx p1)) p1.
 
-Definition step (dh : heap) (p : priv) (o : op) : heap * priv :=
+(* HISTORICAL: the machine as the code was before the repair (pypyr commit d9572b0): InjectIn
+   put the definition's own object into the context.  Kept (a) as the witness of why the repair
+   was needed (Props/C12.v, Example C12_why_the_repair_was_needed) and (b) because [step] below
+   is this machine with a different InjectIn.  NOT the model the check uses. *)
+Definition step_aliasing (dh : heap) (p : priv) (o : op) : heap * priv :=
   if negb (running p) then (dh, p) else
   match o with
   | InjectIn k c => (dh, set_ctx (aset k c (ctx p)) p)
@@ -474,6 +480,20 @@ Definition step (dh : heap) (p : priv) (o : op) : heap * priv :=
     end
   | SetInt k z => (dh, set_ctx (aset k (CInt z) (ctx p)) p)
   | Probe => (dh, mkpriv (ctx p) (ph p) (st p) (trace p ++ [snap FUEL dh p]))
+  end.
+
+(* THE MODEL: Step.set_step_input_context and pypyr.steps.configvars do
+   context.update(copy.deepcopy(...)) — the context receives a private copy of the definition's
+   value; every other operation is as in [step_aliasing]. *)
+Definition step (dh : heap) (p : priv) (o : op) : heap * priv :=
+  match o with
+  | InjectIn k c =>
+    if negb (running p) then (dh, p) else
+    match copy FUEL dh (ph p) [] c with
+    | Some (h, _, c') => (dh, set_ctx (aset k c' (ctx p)) (set_ph h p))
+    | None => (dh, unsup p)
+    end
+  | _ => step_aliasing dh p o
   end.
 
 Fixpoint run (dh : heap) (p : priv) (ops : list op) : heap * priv :=
@@ -619,7 +639,8 @@ Definition is_unsup (s : status) : bool := match s with Unsup => true | _ => fal
    definition root AFTER the run *)
 Definition obs := (option string * list snapshot * snapshot * list tree)%type.
 
-(* ---------------------------------------------------------------- the discipline: a
+(* ---------------------------------------------------------------- the discipline (proof
+   device, and the exact condition under which the HISTORICAL machine was safe): a
    syntactic (decidable) check of an op list.  [T] = keys that MAY be bound to a definition
    object (bound by InjectIn, or by a by-reference copy of such a key).  A run is
    disciplined when no in-place operation (append / py / contextmerge / default) targets a
@@ -737,22 +758,8 @@ Fixpoint build_sched (steps : nat -> list (list op)) (s : list nat) : list (nat 
 
 Definition thread := (list (string * tree) * list (list op))%type.
 
-(* ---------------------------------------------------------------- the repair evaluated:
-   Step.set_step_input_context / configvars doing context.update(copy.deepcopy(...)).
-   [step_fixed] differs from [step] in InjectIn only. *)
-Definition step_fixed (dh : heap) (p : priv) (o : op) : heap * priv :=
-  match o with
-  | InjectIn k c =>
-    if negb (running p) then (dh, p) else
-    match copy FUEL dh (ph p) [] c with
-    | Some (h, _, c') => (dh, set_ctx (aset k c' (ctx p)) (set_ph h p))
-    | None => (dh, unsup p)
-    end
-  | _ => step dh p o
-  end.
-
-(* ---------------------------------------------------------------- correspondence, for the
-   machine as the code is ([step]) or as it would be after the repair ([step_fixed]) *)
+(* ---------------------------------------------------------------- correspondence; [stp] is
+   [step] (the check) or [step_aliasing] (only to replay a case against the pre-repair code) *)
 Section Corr.
   Context (stp : heap -> priv -> op -> heap * priv).
 
